@@ -19,7 +19,7 @@ ASSUMPTIONS = ['property models are monotone in T on 250-500 K for the drawn com
                'mixed temperature is required to land in 200-600 K, otherwise the case is counted as rejected (outside model range)',
                'tolerances from Mixture.T_tol = 1e-6 K (DESIGN.md section 4)']
 REQUIRED_CELLS = {'quick': ['mix:recv=S', 'mix:recv=M', 'mix:multi-inlet', 'mix:Q!=0', 'mix:heat-object', 'mix:self',
-                            'set:H', 'set:h', 'set:S', 'set:Hnet', 'set:multi', 'sep:multi', 'sep:other-at-mixture-T', 'mix:empty-inlet-lowest-P', 'mixvle:Q!=0', 'set:PR', 'set:T*=Tref', 'mix:all-inlets-at-Tref', 'set:composition-edit-before-same', 'mixpr:self-above-min-P', 'set:F_mol=1', 'sep:own-phase-stream'], 'thorough': []}
+                            'set:H', 'set:h', 'set:S', 'set:Hnet', 'set:multi', 'sep:multi', 'sep:other-at-mixture-T', 'mix:empty-inlet-lowest-P', 'mixvle:Q!=0', 'set:PR', 'set:T*=Tref', 'mix:all-inlets-at-Tref', 'set:composition-edit-before-same', 'mixpr:self-above-min-P', 'set:F_mol=1', 'sep:own-phase-stream', 'set:maxiter<20'], 'thorough': []}
 
 PKGS = ['A', 'B', 'C', 'D']
 T_TOL = 1e-6
@@ -256,9 +256,21 @@ def pr_package(pid):
     return th
 
 
+def _div(s):
+    """Outcome class of a failed solve: the temperature left the model range altogether (the secant iteration
+    diverged) versus a wrong temperature inside the range (the solver converged to something else)."""
+    return '' if 200. < s.T < 600. else ':diverged'
+
+
 def prop_setter(ch, ctx):
     sp = draw_inlet(ch, 's', PKGS)
     X = ch.choice('setter', SETTERS)
+    # Configuration: `Mixture.maxiter` bounds the accelerated fixed-point stage; with a small value that stage stops
+    # early and the secant polish of the anchored mechanism has to finish the solve (runner.fresh_state restores 20).
+    maxiter = ch.choice('Mixture.maxiter', [20, 20, 20, 1, 2, 3])
+    from thermosteam.mixture.mixture import Mixture
+    Mixture.maxiter = maxiter
+    if maxiter < 20: ctx.cell('set:maxiter<20')
     mixture_kind = ch.choice('mixture', ['ideal', 'ideal', 'ideal', 'PR'])
     if mixture_kind == 'PR':
         # Equation-of-state package.  A cubic EOS has no gas root below the saturation temperature at elevated
@@ -311,7 +323,7 @@ def prop_setter(ch, ctx):
                 s.T = Tkeep; ctx.reject('equation-of-state enthalpy/entropy not increasing over 250-500 K (root switching)')
             prev = val
         s.T = Tkeep
-    region = f'kind={vs.kind_tag(sp)},setter={X},phases={"".join(sorted(sp["phases"]))},mix={mixture_kind}'
+    region = f'kind={vs.kind_tag(sp)},setter={X},phases={"".join(sorted(sp["phases"]))},mix={mixture_kind}' + (',maxiter=low' if maxiter < 20 else '')
     ctx.cell('set:' + X)
     if sp['kind'] == 'M': ctx.cell('set:multi')
     s.T = Tstar
@@ -323,16 +335,18 @@ def prop_setter(ch, ctx):
     stair = 0
     noise = 0.0
     if X == 'S':
-        hT = 2e-4
+        # 17 samples (33 for equation-of-state mixtures, whose entropy shows sporadic jumps: 3 of 10 samples off the
+        # line by 1e-7 relative in the case kept as replays/regress/C02-pr-entropy-not-injective.json) over +-8e-4 K
+        half, hT = (16, 5e-5) if mixture_kind == 'PR' else (8, 1e-4)
         ys = []
-        for j in range(-4, 5):
+        for j in range(-half, half + 1):
             s.T = Tstar + j * hT
             ys.append(s.S)
         s.T = Tstar
         slope_S = abs(s.C) / Tstar
-        lin = [ys[4] + (j - 4) * hT * slope_S for j in range(9)]
+        lin = [ys[half] + (j - half) * hT * slope_S for j in range(2 * half + 1)]
         noise = max(abs(a - b) for a, b in zip(ys, lin))
-        stair = int(noise > 0.05 * slope_S * hT)
+        stair = int(noise > 0.05 * slope_S * 2e-4)
         ctx.cell(f'set:S:stair={stair}')
     s.T = T0
     flows0 = vs.by_phase(s)
@@ -349,9 +363,16 @@ def prop_setter(ch, ctx):
     ctx.metric_max(f'set:{X}_err/tol:stair={stair}', err / tol)
     ctx.metric_max(f'set:dT:{X}:stair={stair}', abs(s.T - Tstar))
     if err > tol:
-        ctx.fail(f'setter.{X}|{region}|readback', f'assigned {Xstar!r}, read back {back!r}; T={s.T!r} T*={Tstar!r} T0={T0!r}')
+        ctx.fail(f'setter.{X}|{region}|readback{_div(s)}', f'assigned {Xstar!r}, read back {back!r}; T={s.T!r} T*={Tstar!r} T0={T0!r}')
     if abs(s.T - Tstar) > T_tol_rt:
-        ctx.fail(f'setter.{X}|{region}|T-mismatch', f'T={s.T!r} but the assigned value is that of T*={Tstar!r} (T0={T0!r})')
+        # "T equals T*" follows from the read-back clause only where X(T) is injective at this resolution.  If the
+        # value read back at T agrees with X(T*) to much better than slope*|T - T*|, the model function itself takes
+        # the same value at both temperatures (sporadic 1e-4 K-sized jumps of the equation-of-state entropy were
+        # measured) and the clause is undecidable there; the read-back clause above has already held.
+        if err < 0.5 * slope * abs(s.T - Tstar):
+            ctx.cell('set:T-clause-undecidable(model not injective)')
+        else:
+            ctx.fail(f'setter.{X}|{region}|T-mismatch{_div(s)}', f'T={s.T!r} but the assigned value is that of T*={Tstar!r} (T0={T0!r})')
     # assigning the value it already has leaves T unchanged - also right after an in-place composition change at the
     # same T, P with another derived property read in between (the value read must belong to the current flows)
     if ch.bool('edit.before.same') and X != 'S':   # the measured S noise region belongs to the unedited composition
@@ -372,7 +393,7 @@ def prop_setter(ch, ctx):
     ctx.call('setter.same.' + X, setattr, s, X, cur, region=region)
     ctx.metric_max(f'set:same_dT:{X}:stair={stair}', abs(s.T - T1))
     if abs(s.T - T1) > 1e-5 + 4 * noise / slope:
-        ctx.fail(f'setter.same.{X}|{region}|T-moved', f'assigning the current {X} moved T from {T1!r} to {s.T!r}')
+        ctx.fail(f'setter.same.{X}|{region}|T-moved{_div(s)}', f'assigning the current {X} moved T from {T1!r} to {s.T!r}')
     if abs(T0 - Tstar) > 20. or sp['kind'] == 'M':
         ctx.nontriv(['set', X, skey(sp), T0 > Tstar])
 
